@@ -142,7 +142,15 @@ class World:
         if s["via"] in ("kwarg", "both"):
             kwargs["ns"] = s["ns"]
         if s["via"] in ("context", "both"):
-            context = RenderContext(env.from_string(""), globals={"ns": other if s["via"] == "both" else s["ns"]})
+            nsval = other if s["via"] == "both" else s["ns"]
+            if getattr(self, "reuse_ctx", False):
+                # the SAME RenderContext object for every request of this history that names this namespace through its context (as the
+                # include / render tags of one render do): what a caching loader answers must not depend on who asked before
+                context = self.__dict__.setdefault("_ctxs", {}).get((id(env), nsval))
+                if context is None:
+                    context = self._ctxs[(id(env), nsval)] = RenderContext(env.from_string(""), globals={"ns": nsval})
+            else:
+                context = RenderContext(env.from_string(""), globals={"ns": nsval})
         g = None if s["g"] == "none" else {"g": s["g"]}
         try:
             if s["mode"] == "sync":
@@ -168,6 +176,7 @@ def replay_one(job):
         _K = _mk_classes()
     kind, b = job
     w = World(kind, b["cap"], b["autoReload"], b["nsaware"], _K)
+    w.reuse_ctx = bool(b.get("_reuse"))
     try:
         for i, s in enumerate(b["steps"]):
             if s["op"] == "edit":
@@ -346,9 +355,9 @@ def run(tier: str) -> int:
             continue
         beh = _stratified(r.emitted, rnd, 2 if tier == "quick" else 60)
         kinds = (["fs", "choicefs"] if c["Detectable"] == "TRUE" else ["dict", "choice"])
-        for b in beh:
+        for bi, b in enumerate(beh):
             for k in kinds:
-                work.append((k, b))
+                work.append((k, dict(b, _reuse=1) if bi % 2 else b))      # every second behaviour: requests share their RenderContext objects
     res = par.pmap(replay_one, work, chunk=32)
     for (kind, b), bad in zip(work, res):
         ck.case((kind, str(b)), nontrivial=len(b["steps"]) >= 2)
@@ -367,7 +376,7 @@ def run(tier: str) -> int:
             cleanup_gen()
         ck.tlc("LoaderCache simulate depth 12", r)
         long = [b for b in r.emitted if len(b["steps"]) >= 10][:3000]
-        work2 = [("fs", b) for b in long]
+        work2 = [("fs", dict(b, _reuse=1) if i % 2 else b) for i, b in enumerate(long)]
         for (kind, b), bad in zip(work2, par.pmap(replay_one, work2, chunk=16)):
             ck.case((kind, str(b)))
             ck.validated()
